@@ -585,8 +585,9 @@ func BuildPod(g *Group, p *Pod, now time.Time) *v1.Pod {
 	return pod
 }
 
-// SetGroupLabels writes the GPU-group labels the binder writes: first group under the plain key,
-// every group of a multi-device pod additionally under the prefixed key.
+// SetGroupLabels writes the GPU-group labels exactly as the binder does (resourcereservation.updatePodGPUGroup):
+// a single-device sharer gets `runai-gpu-group: <group>`, a multi-device sharer gets one
+// `runai-gpu-group/<group>: <group>` label per device and no plain label.
 func SetGroupLabels(pod *v1.Pod, groups []string) {
 	if len(groups) == 0 {
 		return
@@ -594,11 +595,16 @@ func SetGroupLabels(pod *v1.Pod, groups []string) {
 	if pod.Labels == nil {
 		pod.Labels = map[string]string{}
 	}
-	pod.Labels[GPUGroupLabel] = groups[0]
-	if len(groups) > 1 {
-		for _, g := range groups {
-			pod.Labels[GPUGroupLabel+"/"+g] = g
-		}
+	multi := false
+	if n, err := strconv.ParseInt(pod.Annotations[GPUDevicesAnn], 10, 64); err == nil && n > 1 {
+		multi = true
+	}
+	if !multi {
+		pod.Labels[GPUGroupLabel] = groups[0]
+		return
+	}
+	for _, g := range groups {
+		pod.Labels[GPUGroupLabel+"/"+g] = g
 	}
 }
 
